@@ -337,11 +337,20 @@ fn cut_number_infix(_i: u32) -> String {
     unreachable!("VERIF-CUT number_infix in a NumbersRCurrent instance")
 }
 
+
+// States are built through the crate's own constructor and then activated by assigning `inner`
+// (instead of a struct literal): a change that adds bookkeeping fields to `State` still builds, and the
+// new fields start with the values the crate itself gives a fresh state.
+fn active_state(cfg: FileLogWriterConfig, inner: Inner) -> State {
+    let mut st = State::new(cfg, None, false);
+    st.inner = inner;
+    st
+}
 fn numbers_state(idx: u32, max_size: u64, current_size: u64) -> State {
     let cfg = mk_config(FileSpec::default().directory("d").basename("b").suffix("l").suppress_timestamp(), false, WriteMode::Direct);
-    State {
-        config: cfg,
-        inner: Inner::Active(
+    active_state(
+        cfg,
+        Inner::Active(
             Some(RotationState {
                 naming_state: NamingState::NumbersRCurrent(idx),
                 roll_state: RollState::Size { max_size, current_size },
@@ -351,7 +360,7 @@ fn numbers_state(idx: u32, max_size: u64, current_size: u64) -> State {
             Box::new(RecW { id: 0 }),
             PathBuf::from("c"),
         ),
-    }
+    )
 }
 
 macro_rules! step_harness {
@@ -369,6 +378,8 @@ macro_rules! step_harness {
         #[kani::stub(timestamps::infix_from_timestamp, cut_infix_from_ts)]
         #[kani::stub(crate::util::eprint_err, stub_eprint_err_ev)]
         #[kani::stub(State::initialize, cut_initialize)]
+        #[kani::stub(crate::parameters::file_spec::TimestampCfg::get_timestamp, crate::parameters::file_spec::verif_harness::cut_get_timestamp)]
+        #[kani::stub(list_and_cleanup::CleanupThreadHandle::shutdown, cut_cleanup_thread_shutdown)]
         fn $name() $body
     };
 }
@@ -463,6 +474,91 @@ fn c19_rotate_cleanup_fails() {
 }
 }
 
+// ------------------------------------------------------------------------------------------------
+// Integrated step (session 3): the real write_buffer AND the real mount_next_linewriter_if_necessary
+// in one run, followed by flush() - the two halves share the state (size count, index, mounted
+// writer, any bookkeeping a change may add), so a defect that needs both (e.g. "the record that
+// triggers a rotation is not flushed") is invisible to (A) and (B) alone. Leaves by contract as in
+// (A). Possible since the start-time arm of FileSpec (chrono) is cut: the FlexiLoggerError that
+// write_buffer consumes with unwrap_or_else(..) can then be dropped by CBMC.
+fn step_integrated_case(op: u8) {
+    vs::link_all();
+    vs::cell_set(0, 0);
+    vs::cell_set(1, 0);
+    let idx: u32 = kani::any();
+    kani::assume(idx < 1000);
+    let max_size: u64 = kani::any();
+    let current_size: u64 = kani::any();
+    kani::assume(current_size < (1u64 << 63));
+    let mut state = numbers_state(idx, max_size, current_size);
+    let len: usize = kani::any();
+    kani::assume(len <= 8);
+    let buf = [b'x'; 8];
+    let r = state.write_buffer(&buf[..len]);
+    let ok = r.is_ok();
+    std::mem::forget(r);
+    assert!(ok);
+    let rotate = current_size > max_size;
+    // the writer that must hold the record: the one opened by the rotation (id 1), else the old one (id 0)
+    let w: u32 = if rotate { 1 } else { 0 };
+    let mut n = 0usize;
+    if rotate {
+        // rename -> open -> old writer released -> cleanup, all before the record is written
+        assert!(vs::ev_len() >= 4 && vs::ev_get(0) == 1 && vs::ev_get(1) == 2 && vs::ev_get(2) == 0x300 && vs::ev_get(3) == 3);
+        n = 4;
+    }
+    if len > 0 {
+        assert!(vs::ev_len() == n + 1 && vs::ev_get(n) == (0x100 | w << 4 | len as u32));
+        n += 1;
+    } else {
+        assert!(vs::ev_len() == n);
+    }
+    if let Inner::Active(Some(rs), _, _) = &state.inner {
+        match (&rs.naming_state, &rs.roll_state) {
+            (NamingState::NumbersRCurrent(i2), RollState::Size { max_size: m2, current_size: c2 }) => {
+                assert!(*m2 == max_size);
+                assert!(*i2 == if rotate { idx + 1 } else { idx });
+                assert!(*c2 == if rotate { len as u64 } else { current_size + len as u64 });
+            }
+            _ => unreachable!(),
+        }
+    } else {
+        unreachable!();
+    }
+    if op == 0 {
+        // flush() after the write reaches the writer that holds the record - also when this very
+        // write rotated (buffered modes: the record sits in the new writer's buffer)
+        let f = state.flush();
+        let fok = f.is_ok();
+        std::mem::forget(f);
+        assert!(fok);
+        assert!(vs::ev_len() == n + 1 && vs::ev_get(n) == (0x200 | w));
+    } else {
+        // shutdown() flushes it as well
+        state.shutdown();
+        assert!(vs::ev_len() >= n + 1 && vs::ev_get(n) == (0x200 | w));
+    }
+    kani::cover!(rotate && len == 8, "the write rotated and wrote 8 bytes");
+    kani::cover!(!rotate && len > 0, "no rotation");
+    kani::cover!(rotate && len == 0, "rotation triggered by an empty record");
+    std::mem::forget(state);
+}
+macro_rules! step_integrated_instance {
+    ($name:ident, $op:expr) => {
+        step_harness! { 10,
+        fn $name() {
+            step_integrated_case($op);
+        }
+        }
+    };
+}
+// @verif prop=C01,C04,C08 tier=quick timeout=900 bounds=one-write_buffer-call-with-the-real-rotation-half,NumbersRCurrent(idx<1000),Size{max,cur}(cur<2^63),record<=8-bytes,then-flush()
+// Integrated step: a write on an arbitrary Active state rotates iff the file already exceeds N, in the order rename -> open -> cleanup -> write; the record goes exactly once to the writer mounted afterwards, the size count restarts at the record's length; a flush() directly afterwards reaches that writer - also when this very write rotated.
+step_integrated_instance!(c01_step_write_rotate_flush, 0);
+// @verif prop=C04,C01 tier=quick timeout=900 bounds=same,then-shutdown()
+// ... and so does shutdown().
+step_integrated_instance!(c04_step_write_rotate_shutdown, 1);
+
 fn write_buffer_glue_case(wfault: bool) {
     vs::link_all();
     vs::cell_set(0, if wfault { 4 } else { 0 });
@@ -510,6 +606,7 @@ macro_rules! wb_harness {
         #[kani::stub(State::initialize, cut_initialize)]
         #[kani::stub(State::mount_next_linewriter_if_necessary, rec_mount_next)]
         #[kani::stub(crate::util::eprint_err, stub_eprint_err_ev)]
+        #[kani::stub(crate::parameters::file_spec::TimestampCfg::get_timestamp, crate::parameters::file_spec::verif_harness::cut_get_timestamp)]
         fn $name() $body
     };
 }
@@ -591,9 +688,9 @@ fn sink_state(buffer_cap: Option<usize>) -> State {
         Some(cap) => Box::new(BufWriter::with_capacity(cap, ByteW)),
         None => Box::new(ByteW),
     };
-    State {
-        config: cfg,
-        inner: Inner::Active(
+    active_state(
+        cfg,
+        Inner::Active(
             Some(RotationState {
                 naming_state: NamingState::NumbersRCurrent(0),
                 roll_state: RollState::Size { max_size: u64::MAX, current_size: 0 },
@@ -603,7 +700,7 @@ fn sink_state(buffer_cap: Option<usize>) -> State {
             w,
             PathBuf::from("c"),
         ),
-    }
+    )
 }
 // op: 0 = flush, 1 = shutdown
 fn sink_case(buffer_cap: Option<usize>, op: u8) {
@@ -848,9 +945,9 @@ fn rec_collision_free(_fs: &FileSpec, infix: &str) -> String {
 }
 fn naming_state_with(ns: NamingState, max_size: u64, current_size: u64) -> State {
     let cfg = mk_config(FileSpec::default().directory("d").basename("b").suffix("l").suppress_timestamp(), false, WriteMode::Direct);
-    State {
-        config: cfg,
-        inner: Inner::Active(
+    active_state(
+        cfg,
+        Inner::Active(
             Some(RotationState {
                 naming_state: ns,
                 roll_state: RollState::Size { max_size, current_size },
@@ -860,7 +957,7 @@ fn naming_state_with(ns: NamingState, max_size: u64, current_size: u64) -> State
             Box::new(RecW { id: 0 }),
             PathBuf::from("c"),
         ),
-    }
+    )
 }
 macro_rules! naming_step_harness {
     ($u:literal, fn $name:ident() $body:block) => {
@@ -1129,7 +1226,7 @@ fn shutdown_flush_case(with_rotation: bool) {
     } else {
         None
     };
-    let mut state = State { config: cfg, inner: Inner::Active(rot, Box::new(RecW { id: 3 }), PathBuf::from("c")) };
+    let mut state = active_state(cfg, Inner::Active(rot, Box::new(RecW { id: 3 }), PathBuf::from("c")));
     let len: usize = kani::any();
     kani::assume(len <= 8);
     let buf = [b'x'; 8];
